@@ -55,3 +55,6 @@ void fx_align_ok(uint64_t n, double* res, const double* a) {
     _mm256_storeu_pd(res + i, v);
   }
 }
+
+// C14 canary: constant built in int and widened afterwards
+double fx_c14_int_shift(uint32_t k) { return 0.5 + (6 << k); }
